@@ -19,7 +19,10 @@
 (*                 diagram describe (FIX = TRUE: 2(j-1)).  Invariant Post:   *)
 (*                 at termination the declarative postcondition below holds. *)
 (*  generator    : the instance set, written out for the harness (B1)        *)
-(*  records      : what the real Polygon::simplify() returned for every      *)
+(*  records      : the cache buildConnectorRouteCheckpointCache() builds for   *)
+(*                 the instance's route and points (must be the instance's   *)
+(*                 cache: CacheOf is the specification of the builder), and  *)
+(*                 what the real Polygon::simplify() returned for every      *)
 (*                 instance, judged by the same postcondition (B2)           *)
 EXTENDS Integers, Sequences, FiniteSets, FiniteSetsExt, SequencesExt, TLC, Json, IOUtils
 
@@ -107,6 +110,7 @@ REval == /\ pc = "todo" /\ pc' = "judged" /\ UNCHANGED <<inst, ps, cps, j, k>>
          /\ bad' = {<<i, 1>> : i \in {i \in Idx(k) : Recs[i].qs # Expected(Recs[i].ps)}}          \* 1: wrong route
                     \cup {<<i, 2>> : i \in {i \in Idx(k) : Recs[i].qs = Expected(Recs[i].ps)           \* 2: right route, cache mis-indexed
                                                           /\ ~CacheOK(Recs[i].qs, Recs[i].cps, Recs[i].cq)}}
+                    \cup {<<i, 4>> : i \in {i \in Idx(k) : Recs[i].built # Recs[i].cps \/ Recs[i].cleared # 0}}   \* 4: the library's own cache builder
                     \cup {<<i, 3>> : i \in {i \in Idx(k) : Recs[i].qs = Expected(Recs[i].ps) /\ CacheOK(Recs[i].qs, Recs[i].cps, Recs[i].cq)
                                                           /\ ~OnSegmentOK(Recs[i].qs, Recs[i].cq, Recs[i].cos)}}   \* 3: checkpointsOnSegment wrong
          /\ PrintT(<<"STAT", "simp", k, Cardinality({i \in Idx(k) : Len(Recs[i].qs) < Len(Recs[i].ps) /\ Len(Recs[i].cps) > 0})>>)
